@@ -28,13 +28,14 @@ def gen_ops(rng, n):
         if kind == 'list':
             oid = rng.choice([0] + list(range(5, nobj)))
             k = rng.choice(['append', 'append', 'extend', 'insert', 'pop', 'popat', 'remove', 'index', 'count', 'len', 'get', 'set',
-                            'del', 'contains', 'reverse', 'sort', 'add', 'mul', 'imul', 'iadd', 'iter'])
+                            'del', 'contains', 'reverse', 'sort', 'add', 'mul', 'imul', 'iadd', 'iter', 'extself', 'iaddself'])
             op = {'append': lambda: [k, small()], 'extend': lambda: [k, [small() for _ in range(rng.randrange(0, 4))]],
                   'insert': lambda: [k, rng.randrange(-8, 9), small()], 'pop': lambda: [k], 'popat': lambda: [k, rng.randrange(-7, 8)],
                   'remove': lambda: [k, small()], 'index': lambda: [k, small()], 'count': lambda: [k, small()], 'len': lambda: [k],
                   'get': lambda: [k, rng.randrange(-7, 8)], 'set': lambda: [k, rng.randrange(-7, 8), small()],
                   'del': lambda: [k, rng.randrange(-7, 8)], 'contains': lambda: [k, small()], 'reverse': lambda: [k], 'sort': lambda: [k],
                   'add': lambda: [k, [small() for _ in range(rng.randrange(0, 3))]], 'mul': lambda: [k, rng.randrange(-1, 4)],
+                  'extself': lambda: [k], 'iaddself': lambda: [k],
                   'imul': lambda: [k, rng.choice([0, 1, 1, 2])], 'iadd': lambda: [k, [small() for _ in range(rng.randrange(0, 3))]],
                   'iter': lambda: [k]}[k]()
         elif kind == 'dict':
@@ -280,6 +281,7 @@ def coq_case(r):
              'del': lambda: f'LDel {cz(a[0])}', 'contains': lambda: f'LContains {cz(a[0])}', 'reverse': lambda: 'LReverse', 'sort': lambda: 'LSort',
              'add': lambda: f'LAdd {zl(a[0])}', 'mul': lambda: f'LMul {cz(a[0])}',
              'imul': lambda: f'LIMul {cz(a[0])}', 'iadd': lambda: f'LIAdd {zl(a[0])}', 'iter': lambda: 'LIter',
+             'extself': lambda: 'LIMul 2%Z', 'iaddself': lambda: 'LIMul 2%Z',      # l.extend(l), l += l: the list doubles in place
              'diter': lambda: 'DIter', 'dkeys': lambda: 'DKeys', 'dvalues': lambda: 'DValues', 'ditems': lambda: 'DItems',
              'nset': lambda: f'NSet {cz(a[0])} {cz(a[1])}', 'nget': lambda: f'NGet {cz(a[0])}', 'ndel': lambda: f'NDel {cz(a[0])}',
              'dset': lambda: f'DSet {cz(a[0])} {cz(a[1])}', 'dget': lambda: f'DGet {cz(a[0])}', 'ddel': lambda: f'DDel {cz(a[0])}',
